@@ -66,7 +66,7 @@ LIB_O   := $(SRC_O) $(CBLAS_O) $(FORT_O)
 LIBA    := $(B)/libslu.a
 
 # ---- harness --------------------------------------------------------------
-HCOMMON_C := $(H)/vf_rt.c $(H)/ref.c $(H)/bind.c $(H)/vcase.c $(H)/oracle.c $(H)/wk.c $(H)/e1common.c
+HCOMMON_C := $(H)/vf_rt.c $(H)/ref.c $(H)/bind.c $(H)/vcase.c $(H)/oracle.c $(H)/wk.c $(H)/e1common.c $(H)/xs.c
 HCOMMON_O := $(patsubst $(H)/%.c,$(B)/h/%.o,$(HCOMMON_C))
 HBINS_SRC := $(wildcard $(H)/h_*.c)
 HBINS     := $(patsubst $(H)/h_%.c,$(B)/h_%,$(HBINS_SRC))
